@@ -1,2 +1,31 @@
-From Astisub Require Import Kit.Base.
-Theorem C02_placeholder : True. Proof. exact I. Qed.
+(* C02 — WebVTT codec fidelity.
+   Model: Model/Vtt.v transcribes ReadFromWebVTT (header loop, block state machine, regions, cue settings, the
+   X-TIMESTAMP-MAP parser), parseTextWebVTT (tag stack, voices, inline timestamps, over the html tokenizer model)
+   and WriteToWebVTT; it agrees with the implementation on every generated, mutated and repository document, on
+   the writer's bytes and on hostile single lines (harness).  Theorems so far: totality, schedule independence,
+   fault propagation, nothing-to-write, independence of the map iteration orders.  The write/read fidelity
+   theorem over the model is being proved separately and is added here when it checks (see DESIGN.md). *)
+From Coq Require Import List NArith Permutation.
+From Astisub Require Import Kit.Base Kit.Scan Model.Vtt Proofs.VttIOProofs.
+Import ListNotations.
+
+Theorem C02_reader_total : forall ls e p, read_vtt_lines ls e <> Panic p.
+Proof. exact read_vtt_lines_no_panic. Qed.
+Theorem C02_writer_total : forall d so ro p, write_vtt d so ro <> Panic p.
+Proof. exact write_vtt_no_panic. Qed.
+Theorem C02_reader_schedule_independent : forall data counts, read_vtt_lines (scan data counts) false = read_vtt data.
+Proof. exact read_vtt_schedule. Qed.
+Theorem C02_reader_reports_faults : forall ls, exists k, read_vtt_lines ls true = Err k.
+Proof. exact read_vtt_fault. Qed.
+Theorem C02_nothing_to_write : forall d so ro, vd_items d = [] -> write_vtt d so ro = Err ENothingToWrite.
+Proof. exact write_vtt_empty. Qed.
+Theorem C02_writer_order_independent : forall d so so' ro ro',
+  Permutation so so' -> Permutation ro ro' -> write_vtt d so ro = write_vtt d so' ro'.
+Proof. exact write_vtt_order_independent. Qed.
+
+Print Assumptions C02_reader_total.
+Print Assumptions C02_writer_total.
+Print Assumptions C02_reader_schedule_independent.
+Print Assumptions C02_reader_reports_faults.
+Print Assumptions C02_nothing_to_write.
+Print Assumptions C02_writer_order_independent.
